@@ -93,7 +93,7 @@ class BaseRenderer(eqx.Module):
                 "PSF does not appear to be appropriately normalized; Sum(psf) is more than 0.1 away from 1."
             )
         self.psf_shape = jnp.shape(self.pixel_PSF)
-        if jnp.any(self.im_shape < self.psf_shape):
+        if any(i < p for i, p in zip(self.im_shape, self.psf_shape)):
             raise KernelError(
                 "PSF pixel image size must be smaller than science image."
             )
